@@ -94,7 +94,6 @@ int main() {
     Micro mi;
     build(mi, 2, true);
     out_scheme(computeMoriTanaka<3u, Sym>(mi.m), false);
-    verif::outputs2("M", mi.m.getMatrixElasticity(), 6, 6);
   }
   {
     Unit u("MicroSC_f0_n2");
@@ -102,7 +101,6 @@ int main() {
     Micro mi;
     build(mi, 2, true);
     out_scheme(computeSelfConsistent<3u, Sym>(mi.m, Sym(1e-6), true), false);
-    verif::outputs2("M", mi.m.getMatrixElasticity(), 6, 6);
   }
   {
     // a tolerance above any relative error: the loop exits after its first pass, whose reference medium
